@@ -291,7 +291,7 @@ func (h *HttpServer) handleStreamInit(w http.ResponseWriter, r *http.Request) {
 		if err == nil && !finished {
 			// Batch limit reached — append continuation token
 			token, tokenErr := h.packCursorToken(callID, state, auth)
-			callToken, callErr := h.packCallToken(callID, outputSchema, auth, streamID)
+			callToken, callErr := h.packCallTokenFor(method, callID, outputSchema, auth, streamID)
 			if tokenErr != nil {
 				handlerErr = tokenErr
 			} else if callErr != nil {
@@ -314,7 +314,7 @@ func (h *HttpServer) handleStreamInit(w http.ResponseWriter, r *http.Request) {
 			h.writeHttpError(w, http.StatusInternalServerError, err, nil)
 			return
 		}
-		callToken, err := h.packCallToken(callID, outputSchema, auth, streamID)
+		callToken, err := h.packCallTokenFor(method, callID, outputSchema, auth, streamID)
 		if err != nil {
 			h.writeHttpError(w, http.StatusInternalServerError, err, nil)
 			return
@@ -489,6 +489,17 @@ func (h *HttpServer) handleStreamExchange(w http.ResponseWriter, r *http.Request
 	call, err := h.resolveCall(tokenData, callTokenBytes, auth)
 	if err != nil {
 		h.writeHttpError(w, http.StatusBadRequest, err, nil)
+		return
+	}
+
+	// A call only continues on the route of the method that started it. The
+	// tokens are authentic, so this is only reachable by a caller replaying
+	// its own tokens against another method; that method's state type and
+	// schemas are not the ones sealed here, so refuse before anything looks
+	// at the state. Uniform message, as for the call-id mismatch above.
+	if call.Method != method {
+		h.writeHttpError(w, http.StatusBadRequest,
+			&RpcError{Type: "RuntimeError", Message: "Malformed state token"}, nil)
 		return
 	}
 
